@@ -303,3 +303,20 @@ Definition unseen_count (ls : list link) (mb : Z) : Z :=
 (** [UNSEEN n] of SELECT/EXAMINE *)
 Definition first_unseen (ls : list link) (mb : Z) : option Z :=
   hd_error (positions (fun l => negb (has_flag (lk_flags l) SEEN)) 1 (mbox_links ls mb)).
+
+(** ---- the read commands as the handlers see them: session state + table ----
+    ClientState carries, next to the selection, the counters LastMessageCount /
+    LastRecentCount that SELECT, NOOP and CHECK refresh (they exist for NOOP's
+    EXISTS/RECENT notices).  HandleStatus, HandleSearch and HandleFetch do not
+    read them: every answer is computed from the table.  [sess] makes that
+    explicit: the counters are an argument that no function below looks at. *)
+Record sess := mkSess { ss_selected : Z; ss_read_only : bool; ss_last_count : Z; ss_last_recent : Z }.
+
+(** STATUS mb (UNSEEN) / (RECENT): db.GetUnseenCountPerUser, also when [mb] is the selected mailbox *)
+Definition status_unseen (ss : sess) (s : st) (mb : Z) : Z := unseen_count (links s) mb.
+(** STATUS mb (MESSAGES): db.GetMessageCountPerUser *)
+Definition status_messages (ss : sess) (s : st) (mb : Z) : Z :=
+  Z.of_nat (length (filter (in_mbox mb) (links s))).
+(** SEARCH <flag key> and FETCH 1:* (UID FLAGS) in the selected mailbox *)
+Definition sess_search (ss : sess) (s : st) (k : skey) : list Z := search (links s) (ss_selected ss) k.
+Definition sess_fetch (ss : sess) (s : st) : list (Z * list str) := view (links s) (ss_selected ss).
